@@ -38,3 +38,23 @@ CONDS['KF-C03-str'] = _str_derived
 # any closure found in the host's names mapping was created by an earlier eval call (this call has not
 # evaluated anything yet), so its captured state is never the new one: the whole clause is the finding
 CONDS['KF-C01-closure'] = lambda ex: z3.BoolVal(True)
+
+# C04 ------------------------------------------------------------------------------------------
+def _first_numeric_arg(ex):
+    from sqv.calls import Pack
+    a = ex.ctx['args'][0]
+    if isinstance(a, Pack):
+        return ex.ctx['entry'].lelt(Val.tref(a.val), 0)
+    return ex.to_val(a)
+
+
+CONDS['KF-C04-int'] = lambda ex: z3.Or(L.is_Dec(_first_numeric_arg(ex)), L.is_Float(_first_numeric_arg(ex)))
+CONDS['KF-C04-absfloat'] = lambda ex: L.is_Float(_first_numeric_arg(ex))
+
+
+def _sum_is_int(ex):
+    rs = [e[4] for e in ex.events if e[0] == 'sum_of']
+    return L.is_Int(rs[-1]) if rs else z3.BoolVal(False)
+
+
+CONDS['KF-C04-sum'] = _sum_is_int
